@@ -2533,7 +2533,7 @@ def optimise_quantize(op: Operation, arch, nng):
 
             requantized_vals = []
             for val in input_values.flatten():
-                input_val = val - ifm.quantization.zero_point
+                input_val = int(val) - ifm.quantization.zero_point
 
                 ofm_val = fp_math.multiply_by_quantized_multiplier(input_val, effective_multiplier, effective_shift)
                 ofm_val += ofm.quantization.zero_point
